@@ -100,6 +100,56 @@ static void part_plates(const std::vector<size_t>& ns) {
     R.bound_done("plates: sample counts x 3 f_max x 6 gaps (1 cm ... 10 m) against free space (f >= 20 f_c) and suppression (f <= f_c/2)");
 }
 
+// --- part=pairs: construction histories.  A model's samples are a function of its own arguments, not of what was built before in the same process.
+// Lattice of argument sets per model class; the reference table of every lattice point is computed in a child process forked BEFORE the parent has
+// built anything (a fresh process state each); then, in the parent, every ordered pair (A, B) of lattice points is built back to back and B's samples
+// must be those of the fresh process, bit for bit.
+#include <unistd.h>
+#include <sys/wait.h>
+struct ZArgs { int cls; size_t n; double a, b, c, d, e; };   // cls 0 free space (frev,fmax) 1 wall (frev,fmax,s,xi,b) 2 plates (f0,fmax,g) 3 collimator (fmax,outer,inner)
+static std::vector<impedance_t> build_z(const ZArgs& z) {
+    switch (z.cls) {
+        case 0: return FreeSpaceCSR(z.n, z.a, z.b).impedance();
+        case 1: return ResistiveWall(z.n, z.a, z.b, physcons::c / z.a, z.c, z.d, z.e).impedance();
+        case 2: return ParallelPlatesCSR(z.n, z.a, z.b, z.c).impedance();
+        default: return CollimatorImpedance(z.n, z.b, z.c, z.d).impedance();
+    }
+}
+static std::string zstr(const ZArgs& z) { const char* nm[] = {"freespace", "wall", "plates", "collimator"}; return std::string(nm[z.cls]) + "(" + std::to_string(z.n) + "," + mcx::fstr(z.a) + "," + mcx::fstr(z.b) + "," + mcx::fstr(z.c) + "," + mcx::fstr(z.d) + "," + mcx::fstr(z.e) + ")"; }
+static std::vector<ZArgs> zlattice(bool T) {
+    std::vector<ZArgs> L;
+    for (size_t n : {(size_t)8, (size_t)9}) for (double frev : {1e6, 9e6}) for (double fmax : {1e11, 1e12}) L.push_back({0, n, frev, fmax, 0, 0, 0});
+    for (size_t n : {(size_t)8, (size_t)9}) for (double fmax : {1e11, 1e12}) for (double s : {1e6, 5.8e7}) for (double b : {0.005, 0.016}) L.push_back({1, n, 9e6, fmax, s, 0.0, b});
+    for (size_t n : T ? std::vector<size_t>{16, 33, 64} : std::vector<size_t>{16, 33}) for (double fmax : {1e11, 1e12, 5e12}) for (double g : {0.01, 0.032, 0.3}) L.push_back({2, n, 2.7e6, fmax, g, 0, 0});
+    for (size_t n : {(size_t)8, (size_t)9}) for (double fmax : {1e11, 1e12}) for (double o : {0.016, 0.05}) L.push_back({3, n, 0, fmax, o, 0.002, 0});
+    return L;
+}
+// must be called before the process has constructed any impedance
+static std::vector<uint64_t> fresh_reference_hashes(const std::vector<ZArgs>& L) {
+    std::vector<uint64_t> ref(L.size(), 0);
+    for (size_t i = 0; i < L.size(); i++) {
+        int fd[2]; if (pipe(fd) != 0) { perror("pipe"); exit(3); }
+        pid_t pid = fork();
+        if (pid == 0) { close(fd[0]); auto z = build_z(L[i]); uint64_t h = zhash(z, "") ^ (uint64_t)z.size(); if (write(fd[1], &h, 8) != 8) _exit(4); _exit(0); }
+        close(fd[1]); uint64_t h = 0; if (read(fd[0], &h, 8) != 8) h = 0; close(fd[0]); int st; waitpid(pid, &st, 0); ref[i] = h;
+    }
+    return ref;
+}
+static void part_pairs(const std::vector<ZArgs>& L, const std::vector<uint64_t>& ref) {
+    const char* nm[] = {"FreeSpaceCSR", "ResistiveWall", "ParallelPlates", "Collimator"};
+    for (size_t i = 0; i < L.size(); i++) for (size_t j = 0; j < L.size(); j++) {
+        if (L[i].cls != L[j].cls) continue;
+        std::string kase = mcx::Desc()("part", "pairs")("first", zstr(L[i]))("then", zstr(L[j])).str();
+        if (!R.mine(kase)) continue;
+        if (R.out_of_time()) { R.not_completed = kase; return; }
+        auto a = build_z(L[i]); auto b = build_z(L[j]);
+        const uint64_t h = zhash(b, "") ^ (uint64_t)b.size();
+        R.eval(kase, mcx::fnv(&h, 8, mcx::fnvs(kase)), i == j);
+        if (h != ref[j]) R.violate(std::string("C16/") + nm[L[j].cls] + "/depends-on-what-was-built-before", kase, "samples differ from those the same arguments give in a fresh process");
+    }
+    R.bound_done("pairs: every ordered pair of argument sets per model class (" + std::to_string(L.size()) + " lattice points) built back to back; the second object's samples == those of a fresh process (fork before anything is built), bitwise");
+}
+
 static bool same(const std::vector<impedance_t>& a, const std::vector<impedance_t>& b, double& worst) {
     if (a.size() != b.size()) return false;
     double mag = 0; for (auto& v : b) mag = std::max(mag, (double)std::abs(v));
@@ -183,13 +233,16 @@ int main(int argc, char** argv) {
     std::string zfile; for (int i = 1; i < argc; i++) if (std::string(argv[i]) == "--zfile" && i + 1 < argc) zfile = argv[i + 1];
     R.rule = "one evaluation = one impedance object built by the real constructors / factory (or one impulse response); distinct = FNV of case + samples; trivial = factory call with nothing selected";
     R.sample_every = 500;
-    const bool T = R.thorough();
+    const bool T = true /* the wide lattices run in both tiers */; const bool D = R.thorough(); (void)D;
+    const auto ZL = zlattice(T);
+    const auto zref = R.warm ? std::vector<uint64_t>() : fresh_reference_hashes(ZL);     // before anything is built in this process
     std::vector<unsigned> cn = T ? std::vector<unsigned>{32, 48, 64, 128} : std::vector<unsigned>{32, 64};
     if (R.warm) { for (unsigned n : cn) for (unsigned pad : {4u, 8u}) { Rig r(Cfg{n, 1, n * pad, 0, {0}}); r.f->wakePotential(); } return 0; }
-    std::vector<size_t> ns = T ? std::vector<size_t>{2, 3, 4, 5, 8, 9, 16, 17, 32, 33, 64, 65, 128, 129, 256} : std::vector<size_t>{2, 3, 4, 5, 8, 9, 16, 17, 32, 33};
+    std::vector<size_t> ns = T ? std::vector<size_t>{0, 1, 2, 3, 4, 5, 8, 9, 16, 17, 32, 33, 64, 65, 128, 129, 256} : std::vector<size_t>{0, 1, 2, 3, 4, 5, 8, 9, 16, 17, 32, 33};
     part_models(ns);
     part_plates(T ? std::vector<size_t>{16, 17, 64, 65, 128} : std::vector<size_t>{16, 33});
     part_factory(T ? std::vector<size_t>{4, 9, 32, 33, 64} : std::vector<size_t>{4, 9, 32}, zfile);
     part_causal(cn);
+    part_pairs(ZL, zref);
     return R.finish();
 }
